@@ -235,6 +235,7 @@ def step (line : String) : String :=
   | ["E", evs] => stepE evs
   | ["Q", schema, seek, rows, w] => stepQ false schema seek rows w
   | ["B", _, _] => "nopanic"
+  | ["O", _, _] => "nopanic"
   | _ => "bad-case"
 
 /-- the spec: a string is accepted iff it is a sentence (reference lexer + recogniser); nothing
@@ -249,6 +250,7 @@ def specStep (line : String) : String :=
   | ["E", _] => "nopanic"
   | ["Q", schema, seek, rows, w] => stepQ true schema seek rows w
   | ["B", _, _] => "nopanic"
+  | ["O", _, _] => "nopanic"
   | _ => "bad-case"
 
 def run (spec : Bool) : IO Unit := forEachLine (if spec then specStep else step)
